@@ -37,6 +37,13 @@ reg("C14",
     "Trusted: html.entities.html5 as the standard's table; numeric rules written from the standard. Known finding: C1 controls cannot be expressed by any reference.",
     "DESIGN.md §3 C14")
 
+reg("C20",
+    "exhaustive enumeration of all BMP code points in first/later name position + Hypothesis names/comments/public ids x all 64 flag sets, judged by expat and round-trip/injectivity checks",
+    "Exhaustive on the BMP sub-domain (65536 code points x 2 positions x element/attribute): expat must accept the coerced name and report it unchanged, legal colon-free names must be returned as they are; "
+    "generated names (astral, U+hex look-alikes, one filter object reused) add fromXmlName(toXmlName(n)) == n and injectivity; comments/public ids over all flag sets. Held on everything explored.",
+    "Trusted: expat as the XML parser of reference (XML 1.0 4th-edition names). Known finding: astral name characters are passed through.",
+    "DESIGN.md §3 C20")
+
 NOT_APPLICABLE = {}
 
 
